@@ -686,6 +686,7 @@ theorem step_inv {d0 : Content} {s : PState} {n : Nat} (h : Inv d0 s n) (st : St
   | delete => simp [Step.versioned] at hst
   | create _ => simp [Step.versioned] at hst
   | symRename _ _ => simp [Step.versioned] at hst
+  | aliasWrite _ => simp [Step.versioned] at hst
   | override t =>
     obtain ⟨hadv, hle⟩ := syncDoc_adv s.entry t hvlt
     have := h.ver_le
@@ -863,6 +864,11 @@ def reuseTrace : List Step :=
 def symRenameTrace : List Step :=
   [.beginOpen 0, .finish 0, .beginOpen 1, .finish 1, .beginApply 1 1 "B1".toList, .finish 1,
    .symRename (some "v0".toList) "renamed(v0)".toList]
+
+/-- witness of the open finding C19-alias-keys: the other writer's success falls between client
+0's unlocked read and its locked section -/
+def aliasTrace : List Step :=
+  [.beginOpen 0, .finish 0, .beginApply 0 1 "A".toList, .aliasWrite "B1".toList, .finish 0]
 
 end Proto
 
